@@ -29,7 +29,7 @@ theorem onHeaderBlock_eq_cascade (cfg : Http.Cfg) (urlOk : Bool → Bytes → Bo
   subst hst hpl
   dsimp only
   generalize (Http.isEmptyBodyStatus msg.code ||
-    Http.isEmptyBodyMethod (if cfg.response then cfg.respMethod else msg.method)) = eb
+    (cfg.response && Http.isEmptyBodyMethod cfg.respMethod)) = eb
   generalize ((if cfg.response then cfg.respMethod else msg.method) == Http.bCONNECT) = isC
   generalize (msg.upgrade && Http.supportedUpgrade msg.headers) = up
   clear hl
@@ -72,7 +72,7 @@ theorem resp_framing_agree (x : RespIn) (streamed : Nat) (v : RespVerdict)
     injection h with h
     subst h
     simp only at hz ⊢
-    obtain ⟨p, hpc, heb, hwz, hbz, hocl, hka, hshape⟩ := respPrep_shape x o ho
+    obtain ⟨p, hpc, heb, hwz, hbz, hocl, hshape⟩ := respPrep_shape x o ho
     rw [clientView_framing _ _ _ _ hnc]
     rw [← mustBeEmptyBody_eq _ _ hnc, ← heb]
     simp only [respRecvHdr]
@@ -99,7 +99,7 @@ theorem resp_framing_agree (x : RespIn) (streamed : Nat) (v : RespVerdict)
       simp only [he, hte, hwc, hocl', Bool.false_eq_true, if_false]
       unfold writerFraming
       simp only [hwc, Bool.false_eq_true, if_false]
-      rcases hrest with ⟨n, hn, _⟩ | ⟨hn, hg, _⟩
+      rcases hrest with ⟨n, hn, _⟩ | ⟨hn, hg, _, _⟩
       · have hk := sent_eq x o p streamed n hpc heb' hxc hwz hbz he hcl hsize (hwl ▸ hn)
         simp only [hn]
         generalize respSent x o streamed = sp at hk
@@ -137,7 +137,8 @@ theorem keepalive_agree_partial (x : RespIn) (streamed : Nat) (v : RespVerdict)
     (hv : x.ver = ⟨1, 1⟩ ∨ x.ver = ⟨1, 0⟩) (huc : x.userConn = none)
     (hF11 : ¬ (x.ver = ⟨1, 1⟩ ∧ Http.isEmptyBodyMethod x.method = true ∧ Http.isEmptyBodyStatus x.status = false ∧
       v.out.cl = none))
-    (hF21 : ¬ (v.out.emptyBody = false ∧ v.out.wchunked = false ∧ v.out.wlength = none ∧ v.out.keepAlive = true)) :
+    (hF21 : Gen.C02.closeDelimitedClearsKeepAlive = false →
+      ¬ (v.out.emptyBody = false ∧ v.out.wchunked = false ∧ v.out.wlength = none ∧ v.out.keepAlive = true)) :
     serverKeeps v.out = !v.clientClose := by
   unfold respVerdict at h
   split at h
@@ -147,7 +148,7 @@ theorem keepalive_agree_partial (x : RespIn) (streamed : Nat) (v : RespVerdict)
     injection h with h
     subst h
     simp only at hF11 hF21 ⊢
-    obtain ⟨p, hpc, heb, hwz, hbz, hocl, hka, hshape⟩ := respPrep_shape x o ho
+    obtain ⟨p, hpc, heb, hwz, hbz, hocl, hshape⟩ := respPrep_shape x o ho
     unfold clientView serverKeeps
     simp only [respClose_eq, respRecvHdr, huc, Option.isSome_none, Bool.false_eq_true, if_false]
     rw [mustBeEmptyBody_eq _ _ hnc] at heb
@@ -169,7 +170,7 @@ theorem keepalive_agree_partial (x : RespIn) (streamed : Nat) (v : RespVerdict)
       · cases hk : o.keepAlive <;> cases hs : Http.isEmptyBodyStatus x.status <;>
           simp [hv, huc, Ver.is10, Ver.is11, Http.versionLe10]
       · cases hk : o.keepAlive <;> simp [hv, huc, Ver.is10, Ver.is11, Http.versionLe10]
-    · rcases hrest with ⟨n, hn, hconn⟩ | ⟨hn, hg, hconn⟩
+    · rcases hrest with ⟨n, hn, hconn⟩ | ⟨hn, hg, hconn, hfl⟩
       · have heb' : mustBeEmptyBody x.method x.status = false := by
           rw [mustBeEmptyBody_eq _ _ hnc, ← heb, he]
         have hclp : p.cl = contentLengthProp x p := cl_eq_prop x p hpc heb' hxc
@@ -181,9 +182,11 @@ theorem keepalive_agree_partial (x : RespIn) (streamed : Nat) (v : RespVerdict)
             simp [hv, huc, Ver.is10, Ver.is11, Http.versionLe10]
         · cases hk : o.keepAlive <;> simp [hv, huc, Ver.is10, Ver.is11, Http.versionLe10]
       · have hk : o.keepAlive = false := by
-          cases hk : o.keepAlive
-          · rfl
-          · exact absurd ⟨he, hwc, hn, hk⟩ hF21
+          cases hfv : Gen.C02.closeDelimitedClearsKeepAlive
+          · cases hk : o.keepAlive
+            · rfl
+            · exact absurd ⟨he, hwc, hn, hk⟩ (hF21 hfv)
+          · exact hfl hfv
         rw [hconn, hk]
         unfold connOf
         rcases hv with hv | hv
@@ -200,15 +203,17 @@ accepts — any version, method (except CONNECT; HEAD only without body), `data`
 (none / sized / unsized payload, falsy or truthy), `chunked` ∈ {None, True}, any `compress`,
 `expect100`, connector `force_close` — with framing headers left to aiohttp and an honest
 payload size, the framing the server's parser derives from the emitted headers equals the
-framing of the bytes the client's writer emits.  Excluded: `chunked=False` (`hF22`) and
-`chunked=True` on a GET-class request without data (`hF22b`), where the writer chunk-frames a
-body that the headers do not announce. -/
+framing of the bytes the client's writer emits.  Excluded: `chunked=False` as long as `_create_writer` tests
+`chunked is not None` (`hF22`, conditional on the flag probed from the source — with the
+repaired code the theorem covers `chunked=False`), and `chunked=True` on a GET-class request
+without data (`hF22b`), where the writer chunk-frames a body the headers do not announce.
+Since 766fe91 a HEAD request's body is framed like any other (no HEAD hypothesis). -/
 theorem req_framing_agree_partial (x : ReqIn) (actual : Nat) (v : ReqVerdict)
     (h : reqVerdict x actual = .ok v) (ha : ReqAdmissible x actual)
-    (hF22 : x.chunked ≠ some false)
+    (hF22 : Gen.C02.writerChunksWhenNotNone = true → x.chunked ≠ some false)
     (hF22b : ¬ (x.chunked = some true ∧ x.hasData = false ∧ isGetMethod x.method = true)) :
     v.wire = v.view.framing := by
-  obtain ⟨hnc, htr, hnd, hsz, hucl, hute, hhead⟩ := ha
+  obtain ⟨hnc, htr, hnd, hsz, hucl, hute⟩ := ha
   unfold reqVerdict at h
   split at h
   · cases h
@@ -231,8 +236,8 @@ theorem req_framing_agree_partial (x : ReqIn) (actual : Nat) (v : ReqVerdict)
     simp only at *
     subst hucl hute
     generalize hg : isGetMethod method = g at *
-    generalize hm : Http.isEmptyBodyMethod method = em at *
     generalize he : (expect100 || userExpect) = e at *
+    generalize hfl : Gen.C02.writerChunksWhenNotNone = fl at *
     split at ho
     · cases ho
     · rename_i comp ch h1
@@ -240,34 +245,44 @@ theorem req_framing_agree_partial (x : ReqIn) (actual : Nat) (v : ReqVerdict)
         cases dataTruthy <;> cases userCE <;> cases compress <;> simp at h1 <;>
           (try (obtain ⟨h1a, h1b⟩ := h1; subst h1a h1b)) <;> simp
       clear h1
-      have hch' : ch = none ∨ ch = some true := by
+      have hch' : ch = none ∨ ch = some true ∨ (ch = some false ∧ fl = false) := by
         rcases hch with ⟨h, _⟩ | ⟨h, _⟩
         · subst h
           rcases ch with _ | b
           · exact Or.inl rfl
           · cases b
-            · exact absurd rfl hF22
-            · exact Or.inr rfl
-        · exact Or.inr h
+            · refine Or.inr (Or.inr ⟨rfl, ?_⟩)
+              cases fl
+              · rfl
+              · exact absurd rfl (hF22 rfl)
+            · exact Or.inr (Or.inl rfl)
+        · exact Or.inr (Or.inl h)
       have hd : ch = some true → hasData = false → chunked = some true := by
         intro h1 h2
         rcases hch with ⟨h, _⟩ | ⟨_, h⟩
         · rw [← h]; exact h1
         · have := htr h; rw [h2] at this; cases this
-      have hh : em = true → hasData = false ∧ ch = none := by
-        intro h
-        obtain ⟨h1, h2⟩ := hhead h
-        refine ⟨h1, ?_⟩
-        rcases hch with ⟨h3, _⟩ | ⟨_, h3⟩
-        · rw [h3]; exact h2
-        · have := htr h3; rw [h1] at this; cases this
-      clear hch hhead htr hF22
-      rcases hch' with hc | hc <;> subst hc <;> cases hasData <;> cases g <;> rcases size with _ | s <;>
-        cases em <;> cases e <;> simp [truthy] at ho hd hh hF22b <;> (try (subst ho)) <;>
-        simp [writerFraming, reqSent, reqRecvHdr, truthy] <;> (try (have := hnd rfl)) <;>
-        (try (have := hsz s rfl)) <;> (try omega) <;>
-        (try (subst this; by_cases h0 : s = 0 <;> simp [h0] <;> omega)) <;>
-        (try exact absurd hd hF22b)
+      clear hch htr hF22
+      rcases hch' with hc | hc | ⟨hc, hf⟩
+      · subst hc
+        cases hasData <;> cases g <;> rcases size with _ | s <;> cases e <;> cases fl <;>
+          simp [truthy] at ho hd hF22b <;> (try (subst ho)) <;>
+          simp [writerFraming, reqSent, reqRecvHdr, truthy] <;> (try (have := hnd rfl)) <;>
+          (try (have := hsz s rfl)) <;> (try omega) <;>
+          (try (subst this; by_cases h0 : s = 0 <;> simp [h0] <;> omega))
+      · subst hc
+        cases hasData <;> cases g <;> rcases size with _ | s <;> cases e <;> cases fl <;>
+          simp [truthy] at ho hd hF22b <;> (try (subst ho)) <;>
+          simp [writerFraming, reqSent, reqRecvHdr, truthy] <;> (try (have := hnd rfl)) <;>
+          (try (have := hsz s rfl)) <;> (try omega) <;>
+          (try (subst this; by_cases h0 : s = 0 <;> simp [h0] <;> omega)) <;>
+          (try exact absurd hd hF22b)
+      · subst hc hf
+        cases hasData <;> cases g <;> rcases size with _ | s <;> cases e <;>
+          simp [truthy] at ho hd hF22b <;> (try (subst ho)) <;>
+          simp [writerFraming, reqSent, reqRecvHdr, truthy] <;> (try (have := hnd rfl)) <;>
+          (try (have := hsz s rfl)) <;> (try omega) <;>
+          (try (subst this; by_cases h0 : s = 0 <;> simp [h0] <;> omega))
 
 
 /-! ## invalid combinations raise -/
@@ -385,11 +400,12 @@ theorem keepalive_disagree_head_without_framing_headers :
 /-- HTTP/1.0 keep-alive request answered by a `StreamResponse` without Content-Length: the body
 is delimited by the end of the connection (client reads until close, writer has neither length
 nor chunking) but `resp.keep_alive` stays true — the server never closes, the response never ends. -/
-theorem keepalive_disagree_http10_close_delimited :
+theorem keepalive_disagree_http10_close_delimited (_hfl : Gen.C02.closeDelimitedClearsKeepAlive = false) :
     ∃ v, respVerdict { ver := ⟨1, 0⟩, method := ascii "GET", status := 200, isResponse := false } 3 = .ok v ∧
       v.view.framing = .untilClose ∧ v.wire = .untilClose ∧ serverKeeps v.out = true ∧ v.clientClose = true := by
-  refine ⟨_, rfl, ?_⟩
-  decide +kernel
+  first
+    | (refine ⟨_, rfl, ?_⟩; decide +kernel)
+    | exact absurd _hfl (by decide)
 
 /-- a compressing writer on a response that must be empty (`HEAD` answered by
 `web.Response(body=<payload>)` with `enable_compression()`): the compressor's trailer
@@ -401,14 +417,18 @@ theorem resp_framing_disagree_compress_on_bodiless :
   refine ⟨_, rfl, ?_⟩
   decide +kernel
 
-/-- `session.post(url, data=b"abc", chunked=False)`: the headers announce `Content-Length: 3`,
+/-- `session.post(url, data=b"abc", chunked=False)` while `_create_writer` enables chunking
+whenever `chunked is not None` (flag probed from the source; repaired by 5a429f0, after which
+`req_framing_agree_partial` covers `chunked=False`): the headers announce `Content-Length: 3`,
 the writer chunk-frames the body. -/
-theorem req_framing_disagree_chunked_false :
+theorem req_framing_disagree_chunked_false (hfl : Gen.C02.writerChunksWhenNotNone = true) :
     ∃ v, reqVerdict { ver := ⟨1, 1⟩, method := ascii "POST", hasData := true, dataTruthy := true, size := some 3,
                       chunked := some false } 3 = .ok v ∧
       v.out.cl = some 3 ∧ v.out.te = false ∧ v.view.framing = .length 3 ∧ v.wire = .chunked := by
-  refine ⟨_, rfl, ?_⟩
-  decide +kernel
+  -- holds whatever the probed flag is: vacuous once `_create_writer` tests `if self.chunked`
+  first
+    | exact absurd hfl (by decide)
+    | (refine ⟨_, rfl, ?_⟩; decide +kernel)
 
 /-- `session.get(url, chunked=True)` without data: no Transfer-Encoding header is sent, yet the
 writer emits the chunked terminator `0\r\n\r\n` after the head. -/
@@ -515,7 +535,7 @@ example : ∃ v, respVerdict { ver := ⟨1, 1⟩, method := ascii "GET", status 
 
 /-- and those of `req_framing_agree_partial` for `session.post(url, data=b"abc")` -/
 example : ReqAdmissible { ver := ⟨1, 1⟩, method := ascii "POST", hasData := true, dataTruthy := true, size := some 3 } 3 :=
-  ⟨(by decide), (fun _ => rfl), (fun h => by cases h), (fun s h => by cases h; rfl), rfl, rfl, (fun h => by revert h; decide)⟩
+  ⟨(by decide), (fun _ => rfl), (fun h => by cases h), (fun s h => by cases h; rfl), rfl, rfl⟩
 
 example : ∃ v, reqVerdict { ver := ⟨1, 1⟩, method := ascii "POST", hasData := true, dataTruthy := true, size := some 3 } 3 = .ok v ∧
     v.wire = .length 3 ∧ v.view.framing = .length 3 :=
